@@ -501,7 +501,7 @@ func (w *World) twinOf(h *SegH) segment.Segment {
 
 func concurrentReaders(r *RunCtx) {
 	c := r.ch
-	w := newWorld(r, c.Choose(3, "cfg.syn") != 0, false)
+	w := newWorldBadSyn(r, c.Choose(3, "cfg.syn") != 0)
 	defer w.CloseAll()
 	w.populate(1)
 	// the shared segments: at most 3, fresh instances whose caches are cold
